@@ -130,7 +130,7 @@ Definition aap_copy_assign (K : akind) (L : list param) (d src : vec) (nb : nat)
 Definition copy_assign (K : akind) (L : list param) (d src : vec) (junk : mem) (nb : nat)
   : vec * vec * list ev * nat :=
   let tab := has_varying L in
-  let '(d1, e1) := if all_triv L then (d, []) else destruct_range L d 0 (Z.to_nat (vsize L d)) in
+  let '(d1, e1) := if all_dtriv L then (d, []) else destruct_range L d 0 (Z.to_nat (vsize L d)) in
   let e2 := if tab then dealloc_tbl L d1 else [] in
   let '(bid, u, a, fresh, e3, nb1) := aap_copy_assign K L d1 src nb in
   let base := if fresh then junk else v_mem d1 in
@@ -144,7 +144,7 @@ Definition copy_assign (K : akind) (L : list param) (d src : vec) (junk : mem) (
 
 (* steal (vector.hpp:471-477) with the owning pointer's move assignment (allocator.hpp:128-138) *)
 Definition steal (K : akind) (L : list param) (d src : vec) : vec * vec * list ev :=
-  let '(d1, e1) := if all_triv L then (d, []) else destruct_range L d 0 (Z.to_nat (vsize L d)) in
+  let '(d1, e1) := if all_dtriv L then (d, []) else destruct_range L d 0 (Z.to_nat (vsize L d)) in
   let e2 := (if has_varying L then dealloc_tbl L d1 else []) ++ dealloc_mem L d1 in
   ({| v_cap := v_cap src; v_bid := v_bid src; v_units := v_units src;
       v_aid := if pocma K then v_aid src else v_aid d; v_mem := v_mem src;
@@ -165,7 +165,7 @@ Definition move_assign (K : akind) (L : list param) (d src : vec) (junk : mem) (
       let nu := consumption L src in
       let ea := EAlloc (v_aid d) (SA L) nu bid ::
                 (if tab then [EAlloc (v_aid d) 8 (v_cap src) tbid] else []) in
-      let '(d1, e1) := if all_triv L then (d, []) else destruct_range L d 0 (Z.to_nat (vsize L d)) in
+      let '(d1, e1) := if all_dtriv L then (d, []) else destruct_range L d 0 (Z.to_nat (vsize L d)) in
       let '(src1, m, e2) := insert_into true false L src bid junk in
       ({| v_cap := v_cap src; v_bid := Some bid; v_units := nu; v_aid := v_aid d; v_mem := m;
           v_fixed := v_fixed src; v_count := v_count src; v_stride := v_stride src;
@@ -176,7 +176,7 @@ Definition move_assign (K : akind) (L : list param) (d src : vec) (junk : mem) (
     else
       let tbid := nb in
       let ea := if tab then [EAlloc (v_aid d) 8 (v_cap src) tbid] else [] in
-      let '(d1, e1) := if all_triv L then (d, []) else destruct_range L d 0 (Z.to_nat (vsize L d)) in
+      let '(d1, e1) := if all_dtriv L then (d, []) else destruct_range L d 0 (Z.to_nat (vsize L d)) in
       let '(src1, m, e2) := insert_into true false L src (bidn (v_bid d1)) (v_mem d1) in
       ({| v_cap := v_cap src; v_bid := v_bid d1; v_units := v_units d1; v_aid := v_aid d; v_mem := m;
           v_fixed := v_fixed src; v_count := v_count src; v_stride := v_stride src;
